@@ -600,6 +600,7 @@ Definition wit_quoted_like : log := mkLog [mkFatt [34; 120; 34] [mkEntry [97] [S
 Definition wit_trailing_nbsp : log := mkLog [mkFatt [97; 160] [mkEntry [97] [Single 1]]] [123; 125].
 Definition wit_newline : log := mkLog [mkFatt [97; 10; 98] [mkEntry [97] [Single 1]]] [123; 125].
 Definition wit_empty_ranges : log := mkLog [mkFatt [97] [mkEntry [97] []]] [123; 125].
+Definition wit_empty_hash_no_ranges : log := mkLog [mkFatt [97] [mkEntry [] []; mkEntry [98] [Single 1]]] [123; 125].
 Definition wit_hash_space : log := mkLog [mkFatt [97] [mkEntry [97; 32; 98] [Single 1]]] [123; 125].
 
 (* a (deliberately coarse) boolean inequality test on logs: paths, hashes, range counts, md *)
@@ -651,7 +652,8 @@ Qed.
 
 (* the classes that remain: a newline inside a path, a blank inside a session hash *)
 Lemma known_classes_fail :
-  rt_fails wit_newline = true /\ rt_fails wit_hash_space = true.
+  rt_fails wit_newline = true /\ rt_fails wit_hash_space = true /\
+  rt_fails wit_empty_hash_no_ranges = true.
 Proof. vm_compute. repeat split. Qed.
 
 (* repaired (fix commits in /repo): a file named like the divider, a name wrapped in double quotes, a
